@@ -96,24 +96,32 @@ PtsBytes(pts) ==
   <<33 + 2 * pts[1], pts[2] \div 4194304, ((pts[2] \div 32768) % 128) * 2 + 1,
     (pts[2] \div 128) % 256, (pts[2] % 128) * 2 + 1>>
 
-(* A PES packet for the given lines: 45 byte header with PTS, data_identifier, data units, stuffing up
-   to the smallest multiple of TSP >= minsz.  A single missing byte is added to the last data unit as
-   a stuffing byte (EN 301 775 table 1: data unit = fields, N x stuffing_byte). *)
-EncPes(lines, pts, did, minsz) ==
+(* A PES packet made of the data units `us` (a sequence of byte sequences): 45 byte header with PTS,
+   data_identifier, data units, stuffing up to the smallest multiple of TSP >= minsz.  A single missing
+   byte is added to the last data unit as a stuffing byte (EN 301 775 table 1: data unit = fields,
+   N x stuffing_byte). *)
+EncPesU(us, pts, did, minsz) ==
   LET fixed == DidFixed(did)
-      us    == [i \in 1..Len(lines) |-> EncUnit(lines[i], fixed)]
       body  == Cat(us)
       raw   == HB + Len(body)
       size0 == IF raw < minsz THEN minsz ELSE raw + ((TSP - (raw % TSP)) % TSP)
       pad   == size0 - raw
-      size  == IF pad = 1 /\ Len(lines) = 0 THEN size0 + TSP ELSE size0
-      fill  == IF pad = 1 /\ Len(lines) > 0
-               THEN LET lu == us[Len(lines)] IN
-                    Cat(SubSeq(us, 1, Len(lines) - 1)) \o <<lu[1], lu[2] + 1>> \o SubSeq(lu, 3, Len(lu)) \o <<255>>
+      size  == IF pad = 1 /\ Len(us) = 0 THEN size0 + TSP ELSE size0
+      fill  == IF pad = 1 /\ Len(us) > 0
+               THEN LET lu == us[Len(us)] IN
+                    Cat(SubSeq(us, 1, Len(us) - 1)) \o <<lu[1], lu[2] + 1>> \o SubSeq(lu, 3, Len(lu)) \o <<255>>
                ELSE body \o Stuffing(size - raw, fixed)
       plen  == size - 6
   IN <<0, 0, 1, 189, plen \div 256, plen % 256, 132, 128, HdlVal>> \o PtsBytes(pts) \o Ff(HdlVal - 5)
      \o <<did>> \o fill
+EncPes(lines, pts, did, minsz) == EncPesU([i \in 1..Len(lines) |-> EncUnit(lines[i], DidFixed(did))], pts, did, minsz)
+
+(* one segment of a line of luminance samples (EN 301 775 4.9, variable length format): first / last
+   segment flags, field parity, line_offset, first_pixel_position, n_pixels, the samples *)
+LofpRaw(line) == IF line < 32 THEN 32 + line ELSE line - 313
+EncRawSeg(line, first, last, pos, samples) ==
+  <<DuMono, 4 + Len(samples), (IF first THEN 128 ELSE 0) + (IF last THEN 64 ELSE 0) + LofpRaw(line),
+    pos \div 256, pos % 256, Len(samples)>> \o samples
 
 \* transport packets for one PES packet; cc = continuity counter of the first one
 TsHeader(pid, pusi, cc) == <<71, (IF pusi THEN 64 ELSE 0) + (pid \div 256), pid % 256, 16 + (cc % 16)>>
@@ -199,6 +207,38 @@ RawLines(X) ==
   LET c == UnitCuts(X, HB, Len(X))
       keep == SelectSeq(c.at, LAMBDA a : At(X, a) = DuMono /\ Bits(At(X, a + 2), 7, 7) = 1)
   IN [i \in 1..Len(keep) |-> LofpLine(At(X, keep[i] + 2))]
+
+(* ---- sample data units (EN 301 775 4.9) ----
+   The segments of one line are adjacent data units; the first carries first_segment_flag, the last
+   last_segment_flag; all carry the same field_parity / line_offset; their first_pixel_positions are
+   contiguous.  RawScan yields the lines [line, pos, ys] of packet X or ok = FALSE. *)
+RECURSIVE RawScan(_, _, _, _, _)
+RawScan(X, at, i, cur, acc) ==          \* cur = <<>> or <<[line, lofp, pos, ys]>>: the line whose segments are being collected
+  IF i > Len(at) THEN [ok |-> cur = <<>>, lines |-> acc]
+  ELSE LET a == at[i] IN
+       IF At(X, a) # DuMono
+       THEN IF cur # <<>> THEN [ok |-> FALSE, lines |-> acc] ELSE RawScan(X, at, i + 1, cur, acc)
+       ELSE LET b == At(X, a + 2)  pos == At(X, a + 3) * 256 + At(X, a + 4)  n == At(X, a + 5)
+                ys == [k \in 1..n |-> At(X, a + 5 + k)]
+                first == Bits(b, 7, 7) = 1   last == Bits(b, 6, 6) = 1
+                line == IF Bits(b, 5, 5) = 1 THEN b % 32 ELSE 313 + (b % 32) IN
+            IF first # (cur = <<>>) THEN [ok |-> FALSE, lines |-> acc]
+            ELSE LET c == IF first THEN [line |-> line, lofp |-> b % 64, pos |-> pos, ys |-> ys]
+                          ELSE [cur[1] EXCEPT !.ys = @ \o ys] IN
+                 IF ~first /\ (b % 64 # cur[1].lofp \/ pos # cur[1].pos + Len(cur[1].ys)) THEN [ok |-> FALSE, lines |-> acc]
+                 ELSE IF last THEN RawScan(X, at, i + 1, <<>>, Append(acc, [line |-> c.line, pos |-> c.pos, ys |-> c.ys]))
+                 ELSE RawScan(X, at, i + 1, <<c>>, acc)
+RawOf(X) == RawScan(X, UnitCuts(X, HB, Len(X)).at, 1, <<>>, <<>>)
+
+\* frame line numbers of the data units of X in transmission order (0 = undefined; stuffing and
+\* continuation segments left out): EN 301 775 4.1 - they ascend
+LineSeq(X) ==
+  LET c == UnitCuts(X, HB, Len(X))
+      keep == SelectSeq(c.at, LAMBDA a : At(X, a) # DuStuff /\ (At(X, a) # DuMono \/ Bits(At(X, a + 2), 7, 7) = 1))
+  IN [i \in 1..Len(keep) |-> IF At(X, keep[i]) = DuMono
+                               THEN (IF Bits(At(X, keep[i] + 2), 5, 5) = 1 THEN At(X, keep[i] + 2) % 32 ELSE 313 + (At(X, keep[i] + 2) % 32))
+                               ELSE LofpLine(At(X, keep[i] + 2))]
+Ascending(q) == \A i, j \in 1..Len(q) : i < j /\ q[i] # 0 /\ q[j] # 0 => q[i] < q[j]
 
 (* T is a sequence of 188 byte transport packets [b0, b1, b2, b3, pay] (cut by length only) carrying
    exactly the PES packet X for PID pid, with continuity counters cc, cc + 1, ... (ISO 13818-1 2.4.3.3,
